@@ -220,7 +220,10 @@ CONTENT_TYPES_OTHER = ['text/plain', 'text/plain; charset=utf-8', 'application/o
                        'application/x-www-form-urlencoded, text/plain', ';charset=utf-8', 'a/b;c', 'a/b;=', 'a/b;"', 'text/plain; charset',
                        'text/plain;q=x', 'multipart/form-data; boundary="unterminated', 'text/plain; charset=',
                        'multipart/form-data;boundary=a\tb', 'multipart/form-data; boundary=a, x/y', 'x/y, multipart/form-data; boundary=a',
-                       'multipart/form-data; boundary=?', 'multipart/form-data; boundary=\x7f']
+                       'multipart/form-data; boundary=?', 'multipart/form-data; boundary=\x7f',
+                       # a valid ASCII run followed by an octet outside it (the validity test must cover the whole value)
+                       'multipart/form-data; boundary=abc\xe9', 'multipart/form-data; boundary="ab cd\xff"',
+                       'multipart/mixed; boundary=ok\x80ok', 'multipart/form-data; boundary=abc\x7f', 'multipart/form-data; boundary=a\x1fb']
 
 FORM_BODIES = [b'a=1&b=2', b'a=1&a=2&a=3', b'a=%C3%A9', b'a=%FF', b'a=%zz', b'a', b'=1', b'a=1;b=2', b'&&', b'a=+%2B', b'a=1&self=2',
                b'a=\xff', b'a=\xc3\xa9', b'%', b'a=%', b'a=%1', b'\xe9=1', b'a=1&a', b'a' * 3000, b'a=\x00', b'a==&=', b'a=1\r\n']
